@@ -511,15 +511,18 @@ def explore2(prog, fn, alphabet, names, spec_init, spec_step, entry_heads, codes
                     break
                 elif is_jd and opaque and nm in opaque:
                     tok, failcodes, headsel = opaque[nm]
+                    if callable(tok):
+                        tok = tok(f, st, head)
                     if sst[0] == "stopped":
                         res.mismatch.append(("calls %s after the point where the scan must stop with %s" % (nm, "/".join(sorted(sst[1]))), trace))
                         stopped = True
                         break
                     r = spec_step(sst[1], tok)
-                    if r[0] != "consume":
+                    if r[0] not in ("consume", "consume-stop"):
                         res.mismatch.append(("reads a %s (%s) where the scan must stop with %s" % (tok, nm, "/".join(sorted(r[1]))), trace))
                         stopped = True
                         break
+                    after_ok = ("run", r[1]) if r[0] == "consume" else ("stopped", frozenset(r[1]))
                     res.moves += 1
                     envt2, _cv = freeze(path)
                     base_cv = dict(path.callval)
@@ -527,7 +530,7 @@ def explore2(prog, fn, alphabet, names, spec_init, spec_step, entry_heads, codes
                     for h2 in headsel(alphabet, head):
                         cv2 = dict(base_cv)
                         cv2[e] = C(codes["Ok"])
-                        push(frames[:-1] + ((fkey, b, idx, envt2, tuple(sorted(cv2.items())), retto),), h2, ("run", r[1]), False,
+                        push(frames[:-1] + ((fkey, b, idx, envt2, tuple(sorted(cv2.items())), retto),), h2, after_ok, False,
                              tr2 + (name(h2),) if len(tr2) < 14 else tr2)
                     for code in sorted(failcodes):
                         cv2 = dict(base_cv)
